@@ -280,6 +280,110 @@ Definition maskinterp_nd_spec (ys : list Q) (mask : list bool) (xval : option (l
                 | None => 0
                 end) (seq 0 (length ys)).
 
+(* ---- the whole call djs_maskinterp(yval, mask, xval, axis): argument checks and the dispatch on (ndim, xval given,
+   axis) are GENERATED (Generated/MaskInterp.v: nd_check_..., nd_axis_..., nd_table).  A leaf of the table says which
+   dimensions the nested loops run over and where the loop variables and the `:` sit in the index; entry_lines
+   enumerates the flat (C order) indices the leaf touches, loop iteration by loop iteration. *)
+Definition nd_entry := (nat * bool * option Z * list nat * list (option nat) * bool)%type.
+Definition e_ndim (e : nd_entry) : nat := fst (fst (fst (fst (fst e)))).
+Definition e_hasx (e : nd_entry) : bool := snd (fst (fst (fst (fst e)))).
+Definition e_axis (e : nd_entry) : option Z := snd (fst (fst (fst e))).
+Definition e_dims (e : nd_entry) : list nat := snd (fst (fst e)).
+Definition e_pat (e : nd_entry) : list (option nat) := snd (fst e).
+Definition e_passx (e : nd_entry) : bool := snd e.
+
+(* the first leaf (source order) under `ndim == n`, `xval is None` / else, whose axis test holds *)
+Fixpoint nd_find (tbl : list nd_entry) (ndim : nat) (hasx : bool) (axis : Z) : option nd_entry :=
+  match tbl with
+  | [] => None
+  | e :: r =>
+    if Nat.eqb (e_ndim e) ndim && Bool.eqb (e_hasx e) hasx
+       && match e_axis e with Some k => Z.eqb axis k | None => true end
+    then Some e else nd_find r ndim hasx axis
+  end.
+
+(* values of the loop variables, outer loop first, in iteration order *)
+Fixpoint loop_envs (shape dims : list nat) : list (list nat) :=
+  match dims with
+  | [] => [[]]
+  | d :: r => flat_map (fun i => map (cons i) (loop_envs shape r)) (seq 0 (nth d shape O))
+  end.
+
+(* C-order flat index of a full index tuple *)
+Fixpoint flat_index (shape idx : list nat) : nat :=
+  match shape, idx with
+  | _ :: sh, i :: r => (i * prod sh + flat_index sh r)%nat
+  | _, _ => O
+  end.
+
+Fixpoint slice_pos (pat : list (option nat)) : nat :=
+  match pat with Some _ :: r => S (slice_pos r) | _ => O end.
+
+Definition entry_lines (shape : list nat) (e : nd_entry) : list (list nat) :=
+  let len := nth (slice_pos (e_pat e)) shape O in
+  map (fun env => map (fun k => flat_index shape (map (fun o : option nat => match o with Some j => nth j env O | None => k end) (e_pat e)))
+                      (seq 0 len))
+      (loop_envs shape (e_dims e)).
+
+Definition shape_eqb (a b : list nat) : bool :=
+  Nat.eqb (length a) (length b) && forallb (fun p => Nat.eqb (fst p) (snd p)) (combine a b).
+
+(* NDErr = the call raises ValueError; NDOther = any other outcome that is not an array (never expected) *)
+Inductive ndres := NDErr | NDOther | NDOk (l : list Q).
+
+Definition maskinterp_call_model (ys : list Q) (mask : list bool) (xval : option (list Q))
+    (shape mshape : list nat) (xshape : option (list nat)) (axis : option Z) : ndres :=
+  if nd_check_mask_shape && negb (shape_eqb mshape shape) then NDErr
+  else if nd_check_xval_shape && match xshape with Some xs => negb (shape_eqb xs shape) | None => false end then NDErr
+  else
+    let ndim := length shape in
+    if Nat.eqb ndim 1 then NDOk (maskinterp1_model ys mask xval)
+    else
+      match axis with
+      | None => if nd_axis_none_is_error then NDErr else NDOther
+      | Some a =>
+        if nd_axis_invalid a (Z.of_nat ndim) then NDErr
+        else match nd_find nd_table ndim (match xval with Some _ => true | None => false end) a with
+             | None => NDErr                                    (* else: raise ValueError('Unsupported number of dimensions.') *)
+             | Some e => NDOk (maskinterp_nd_model ys mask (if e_passx e then xval else None) (entry_lines shape e))
+             end
+      end.
+
+(* S for the whole call: arrays of one shape with 1 to 3 dimensions; a vector needs no axis; otherwise the axis must be
+   one of 0 .. ndim-1 (pydl numbering) and every line along it is interpolated on its own; anything else is refused *)
+Definition maskinterp_call_spec (ys : list Q) (mask : list bool) (xval : option (list Q))
+    (shape mshape : list nat) (xshape : option (list nat)) (axis : option Z) : ndres :=
+  if negb (shape_eqb mshape shape) || match xshape with Some xs => negb (shape_eqb xs shape) | None => false end then NDErr
+  else
+    let ndim := length shape in
+    if Nat.eqb ndim 1 then NDOk (maskinterp1_spec ys mask xval)
+    else if (2 <=? ndim)%nat && (ndim <=? 3)%nat then
+      match axis with
+      | Some a => if (0 <=? a)%Z && (a <? Z.of_nat ndim)%Z
+                  then NDOk (maskinterp_nd_spec ys mask xval (lines_pydl shape (Z.to_nat a))) else NDErr
+      | None => NDErr
+      end
+    else NDErr.
+
+(* the generated dispatch reaches, for every shape with sides 0..3 of 2 or 3 dimensions, every axis and both xval
+   variants, a leaf that passes xval on exactly when it is given and whose loops enumerate the lines of
+   lines_pydl in the same order (all shapes: by the correspondence run, which compares the lines in every case) *)
+Fixpoint shapes_upto (ndim side : nat) : list (list nat) :=
+  match ndim with
+  | O => [[]]
+  | S n => flat_map (fun s => map (cons s) (shapes_upto n side)) (seq 0 (S side))
+  end.
+Definition nd_dispatch_ok_for (shape : list nat) (hasx : bool) (axis : nat) : bool :=
+  match nd_find nd_table (length shape) hasx (Z.of_nat axis) with
+  | Some e => Bool.eqb (e_passx e) hasx && lines_eqb (entry_lines shape e) (lines_pydl shape axis)
+  | None => false
+  end.
+Definition nd_dispatch_check (side : nat) : bool :=
+  forallb (fun ndim => forallb (fun shape => forallb (fun hasx => forallb (fun axis => nd_dispatch_ok_for shape hasx axis) (seq 0 ndim))
+                                                     [false; true])
+                               (shapes_upto ndim side))
+          [2%nat; 3%nat].
+
 (* ------------------------------------------------------------------ aesthetics *)
 
 Fixpoint select {A} (keep : list bool) (l : list A) : list A :=
@@ -291,27 +395,54 @@ Definition qsum (l : list Q) : Q := fold_right Qplus 0 l.
 
 Inductive amethod := Traditional | Noconst | Mean | Nothing.
 
+(* M, assembled from the GENERATED pieces of aesthetics() (Generated/MaskInterp.v, aes_...): the bad-pixel test,
+   the all-bad shortcut (`if badpts.all(): return flux`), the any-bad guard, the mask expression handed to
+   djs_maskinterp by traditional / noconst (`const` has no effect: C17_const_left_noop, C17_const_right_noop),
+   the good-pixel test and the destination of the `mean` assignment *)
 Definition aesthetics_model (meth : amethod) (flux iv : list Q) : list Q :=
+  let bad := map aes_badpts iv in
+  if aes_allbad_returns_input && forallb (fun b : bool => b) bad then flux
+  else if existsb (fun b => b) bad then
+    match meth with
+    | Traditional => maskinterp1_model flux (map aes_trad_mask iv) None
+    | Noconst => maskinterp1_model flux (map aes_noconst_mask iv) None
+    | Mean =>
+      let good := map aes_mean_good iv in
+      let gs := select good flux in
+      let mu := qsum gs / qnat (length gs) in
+      map (fun fgb : Q * (bool * bool) => if aes_mean_dest (fst (snd fgb)) (snd (snd fgb)) then mu else fst fgb)
+          (combine flux (combine good bad))
+    | Nothing => flux
+    end
+  else flux.
+
+(* the hand-written reference the theorems are proved about; C17_aesthetics_generated_is_reference states that
+   the model assembled from the generated pieces IS this definition *)
+Definition aesthetics_ref (meth : amethod) (flux iv : list Q) : list Q :=
   let bad := map (fun v => Qeq_bool v 0) iv in
-  if existsb (fun b => b) bad then
+  if forallb (fun b : bool => b) bad then flux
+  else if existsb (fun b => b) bad then
     match meth with
     | Traditional | Noconst => maskinterp1_model flux bad None
     | Mean =>
       let good := map (fun v => Qltb 0 v) iv in
       let gs := select good flux in
       let mu := qsum gs / qnat (length gs) in
-      map (fun fg : Q * bool => if snd fg then fst fg else mu) (combine flux good)
+      map (fun fgb : Q * (bool * bool) => if negb (fst (snd fgb)) then mu else fst fgb) (combine flux (combine good bad))
     | Nothing => flux
     end
   else flux.
 
-(* S: flux may differ from the input only where ivar = 0; there it is what the method prescribes *)
+(* S: flux may differ from the input only where ivar = 0; there it is what the method prescribes (without any
+   pixel of non-zero inverse variance there is nothing to base a value on: the spectrum is returned as it is) *)
 Definition aesthetics_spec (meth : amethod) (flux iv : list Q) : list Q :=
   match meth with
   | Traditional | Noconst => maskinterp1_spec flux (map (fun v => Qeq_bool v 0) iv) None
   | Mean =>
-    let gs := select (map (fun v => negb (Qeq_bool v 0)) iv) flux in
-    map (fun fv : Q * Q => if Qeq_bool (snd fv) 0 then qsum gs / qnat (length gs) else fst fv) (combine flux iv)
+    if forallb (fun v => Qeq_bool v 0) iv then flux
+    else
+      let gs := select (map (fun v => negb (Qeq_bool v 0)) iv) flux in
+      map (fun fv : Q * Q => if Qeq_bool (snd fv) 0 then qsum gs / qnat (length gs) else fst fv) (combine flux iv)
   | Nothing => flux
   end.
 
@@ -520,11 +651,16 @@ Definition rres_eqb (m : list bool * bool) (r : rres) : bool :=
 Definition qres_close (m : list Q) (r : qres) : bool :=
   match r with QErr => false | QOk l => qlist_close m l end.
 
+Definition ndres_close (m r : ndres) : bool :=
+  match m, r with NDErr, NDErr => true | NDOk a, NDOk b => qlist_close a b | _, _ => false end.
+
 Inductive case :=
 | CReject (o : ropts) (pts : list point) (expect : rres)
 | CInterp (ys : list Q) (mask : list bool) (xval : option (list Q)) (expect : qres)
 | CInterpND (ys : list Q) (mask : list bool) (xval : option (list Q)) (shape : list nat) (axis : nat)
             (np_lines : list (list nat)) (expect : qres)
+| CInterpCall (ys : list Q) (mask : list bool) (xval : option (list Q)) (shape mshape : list nat) (xshape : option (list nat))
+              (axis : option Z) (expect : ndres)
 | CAesth (meth : amethod) (flux iv : list Q) (expect : qres)
 | CMedian (xs : list Z) (width : Z) (expect : mres)
 | CMedian2 (rows : list (list Z)) (width : Z) (expect : m2res)
@@ -544,6 +680,9 @@ Definition run_case (c : case) : Z :=
       let lines := lines_pydl shape axis in
       verdict (lines_eqb lines np_lines && qres_close (maskinterp_nd_model ys mask xval lines) expect)
               (qres_close (maskinterp_nd_spec ys mask xval lines) expect)
+  | CInterpCall ys mask xval shape mshape xshape axis expect =>
+      verdict (ndres_close (maskinterp_call_model ys mask xval shape mshape xshape axis) expect)
+              (ndres_close (maskinterp_call_spec ys mask xval shape mshape xshape axis) expect)
   | CAesth meth flux iv expect =>
       verdict (qres_close (aesthetics_model meth flux iv) expect) (qres_close (aesthetics_spec meth flux iv) expect)
   | CMedian xs width expect =>
